@@ -233,4 +233,5 @@ def run(chk):
                         "checked on every variant by comparing the oracle tables of original and variant",
                         "Arpeggio (StrMatch._parse, RegExMatch.compile flags, the interpreter) is modelled, validated by this correspondence, not verified",
                         "model structure at textX level (objects, attributes, positions, values) is compared on the implementation, not derived in Coq"]
+    failures.sort(key=lambda f: 0 if isinstance(f.get("case"), dict) and "variant" in f["case"] else 1)   # concrete failing inputs first
     decide(chk, failures, disagreements)
